@@ -20,7 +20,7 @@ fn want_like(w: &PipelineWant, record: bool) -> PipelineWant {
 }
 
 fn fails(check: &str, class: &str, scenario: &Arc<Scenario>, sched: &SchedSpec, trace: Option<Trace>, want: &PipelineWant) -> Option<(Finding, Option<Trace>)> {
-    let out = oracle::run_pipeline_case(scenario, sched, trace, want);
+    let out = checks::evaluate_case(check, scenario, sched, trace, want);
     let (mine, harness) = checks::filter_findings(check, out.findings);
     if !harness.is_empty() {
         return None;
